@@ -299,6 +299,12 @@ impl<'p, W, R, T> CompilationScope<'p, W, R, T> {
         spec: XFuncSpec,
         func: XStaticFunction<W, R, T>,
     ) -> Result<XExpr<W, R, T>, CompilationError> {
+        // a lambda can be invoked as soon as it exists: its forward dependencies are those
+        // of the scope that creates it
+        if let XStaticFunction::UserFunction(ud) = &func {
+            let requirements: Vec<_> = ud.forward_requirements.iter().cloned().collect();
+            self.require_forwards(requirements)?;
+        }
         let cell_idx = self.cells.ipush(Cell::Variable {
             t: spec.xtype(),
             forward_requirements: Default::default(),
